@@ -16,6 +16,7 @@ import Driver.C13
 import Driver.C03
 import Driver.C17
 import Driver.C07
+import Driver.C06
 /-
   Line-protocol driver (DESIGN.md §4.1). For each line
       <component> <args...> => <implementation output>
@@ -31,7 +32,7 @@ import Driver.C07
 -/
 open Lal Drv
 
-def handlers : List Handler := [Drv.C11.handleC11, Drv.C08.handleC08, Drv.C01.handleC01, Drv.C09.handleC09, Drv.C12.handleC12, Drv.C18.handleC18, Drv.C19.handleC19, Drv.C04.handleC04, Drv.C10.handleC10, Drv.C14.handleC14, Drv.C20.handleC20, Drv.C15.handleC15, Drv.C05.handleC05, Drv.C13.handleC13, Drv.C03.handleC03, Drv.C17.handleC17, Drv.C07.handleC07]
+def handlers : List Handler := [Drv.C11.handleC11, Drv.C08.handleC08, Drv.C01.handleC01, Drv.C09.handleC09, Drv.C12.handleC12, Drv.C18.handleC18, Drv.C19.handleC19, Drv.C04.handleC04, Drv.C10.handleC10, Drv.C14.handleC14, Drv.C20.handleC20, Drv.C15.handleC15, Drv.C05.handleC05, Drv.C13.handleC13, Drv.C03.handleC03, Drv.C17.handleC17, Drv.C07.handleC07, Drv.C06.handleC06]
 
 def dispatch (comp : String) (args : List String) (impl : String) : Ans :=
   match handlers.findSome? (fun h => h comp args impl) with
